@@ -18,7 +18,7 @@ Pipeline
      the call are compared with the model's `runItems` and with the static expectation of the generator;
  (3b) 30% of the load programs live in a tree with three directory symlinks and spell files through them (op "runfs":
      the model `runItemsF` runs over the kernel's directory automaton measured with os.path.realpath in the child); ~4% are the
-     `<link>/..` shapes of the open finding C19-abspath-through-link (wrong directory with decoys / os.chdir raising);
+     `<link>/..` shapes of the repaired finding F30 (decoys in the lexically normalised directory / that directory missing);
  (3c) default stage: `checkTypePath` vs parse_args of a path-typed argument with/without a Path default (open finding
      C19-default-same-spelling, exact grid); Path(Path, cwd=…) copies vs `mkPathArg`;
  (4) replay of the repaired defect F16 and of the open findings.
@@ -50,12 +50,12 @@ MANIFEST = {
             "raises (no OSError escapes), the absolute/relative bookkeeping (a Path given a Path is the identity), and for all nested load programs, "
             "failing ones included, that every path value is resolved against the directory of its innermost enclosing config file and that cwd and "
             "current_path_dir are restored.  Second model (Core/PathModeFS): the same loader over ANY file system with directory symlinks - os.chdir "
-            "resolved by the kernel, os.path.abspath/dirname/join lexical: the process cwd is restored for every file system, program and failure point "
-            "(os.chdir raising inside __enter__ included); every relative path at any depth resolves against the physical directory of the file that "
-            "spells it (the link's own directory for a symlinked file) under the decidable hypothesis lexOK (abspath does not change where the kernel "
-            "goes), which holds for every directory string without `..` and in every file system without directory links; the full statement is refuted "
-            "by two witnesses (open finding C19-abspath-through-link: <link>/../x resolves against the wrong directory, or os.chdir raises and "
-            "current_path_dir stays set).  Exact characterisations of the open findings C19-listfile-reresolved (accepted iff the spelling leads back "
+            "resolved by the kernel, os.path.dirname/join lexical: cwd AND current_path_dir are restored for every file system, program and "
+            "failure point (os.chdir raising included); every relative path at any depth resolves against the physical directory of the file that "
+            "spells it (the link's own directory for a symlinked file) with NO hypothesis on file system or spellings (full strength since the repair "
+            "6e92c59 of finding F30), the load succeeds iff no item fails and the bracketed files exist; the bracket before the repair (abspath before "
+            "chdir, set before try) is kept as oldBracket with the two refutations as regression witnesses and lexOK as the exact condition under "
+            "which it agreed.  Exact characterisations of the open findings C19-listfile-reresolved (accepted iff the spelling leads back "
             "to the list file's directory) and C19-default-same-spelling (checkTypePath).  The model is "
             "tied to the code by regenerating the rules of _check_mode, the flag tests and the relative/absolute/cwd statements of __init__, every statement "
             "of change_to_path_dir, parse_value_or_config, _ActionConfigLoad._load_config and every `with change_to_path_dir(...)` site of the package into "
@@ -750,7 +750,6 @@ def build_parser(levels, **kw):
 
 DIRS = ["a", "b", "b/y", "c", "c/d", "e/f/g", "w"]
 F_LIST = "C19-listfile-reresolved"
-F_ABSLINK = "C19-abspath-through-link"
 # directory symlinks of a program with prog["dirlinks"]: link (relative to the program's base) -> target directory
 LINKS = [("la", "b/y"), ("c/lk", "e/f"), ("w/lw", "a")]
 # for the `link/..` shapes: link -> (directory the kernel reaches for link/.., directory abspath makes of it, a sub-directory
@@ -979,8 +978,8 @@ class Gen:
         return False
 
     def dotdot_program(self):
-        """one bracketed file spelled `<link>/../…` (open finding C19-abspath-through-link): the kernel follows the link
-        before `..`, os.path.abspath cancels the pair lexically.  shape "wrongdir": the lexical directory exists (same-named
+        """one bracketed file spelled `<link>/../…` (repaired finding F30 = C19-abspath-through-link): the kernel follows the
+        link before `..`, os.path.abspath cancels the pair lexically; the full oracle applies, the decoys must not be taken.  shape "wrongdir": the lexical directory exists (same-named
         decoys are put there), shape "nochdir": it does not (os.chdir raises inside __enter__)."""
         rng = self.rng
         wdir = rng.choice(DIRS)
@@ -1196,7 +1195,7 @@ def expectation(prog):
     flags = {"fail": False, "unstable": False, "g": 0, "lexbad": False}
 
     def absdir(d):
-        return base + "/" + d
+        return base + "/" + d if d else base
 
     def triple(rel, d):
         b = absdir(d)
@@ -1570,9 +1569,9 @@ def judge_load(ctx, prog, real, model):
             if mt != rt:
                 corr = "resolved paths differ: only model %s, only real %s" % (sorted(mt - rt)[:3], sorted(rt - mt)[:3])
     orc, known = None, None
-    if model is not None and "good" in model and model["good"] == bool(prog.get("_lexbad") or (unstable and exp_ok)) and model["exist"] and exp_ok:
-        # the harness's reading of "abspath is harmless and list files are stable" (kresolve) and the model's goodItemsF disagree
-        corr = corr or "goodItemsF=%s but the harness finds lexbad=%s unstable=%s" % (model["good"], prog.get("_lexbad"), unstable)
+    if model is not None and "exist" in model and exp_ok and model["exist"] == bool(unstable):
+        # the harness's reading of "list files are stable" (kresolve) and the model's existItemsF disagree
+        corr = corr or "existItemsF=%s but the harness finds unstable=%s" % (model["exist"], unstable)
     if real["cwd_after"] != W:
         orc = "working directory after the call is %s, was %s" % (real["cwd_after"], W)
     elif real["cpd_after"] is not None:
@@ -1590,9 +1589,6 @@ def judge_load(ctx, prog, real, model):
         rt = {tuple(t) for t in real["paths"]}
         if rt != triples:
             orc = "path values are not resolved against the directory of their (last) source: unexpected %s, missing %s" % (sorted(rt - triples)[:3], sorted(triples - rt)[:3])
-    if orc and prog.get("_lexbad") and real["cwd_after"] == W and not (real["ok"] and not exp_ok):
-        # a bracketed file spelled through `<link>/..`: wrong directory, or os.chdir raising inside __enter__ (current_path_dir stays set)
-        known, orc = F_ABSLINK, None
     return corr, orc, known
 
 
@@ -1706,11 +1702,7 @@ def load_stage(ctx: Ctx, nprog):
         if depth >= 1 and len(nodes) >= 2:
             ctx.nontrivial("load|" + json.dumps(model_items(p), sort_keys=True) + "|" + p["wdir"] + "|" + p["entry"])
         corr, orc, known = judge_load(ctx, p, real, model)
-        if known == F_ABSLINK and ctx.is_open(known):
-            ctx.known(known, "a config / list file spelled through <link>/.. (%s): os.path.abspath cancels the pair before os.chdir -> %s" % (
-                next((n["ref"] for n in nodes if "ref" in n and "/../" in n["ref"]), "?"),
-                "relative paths inside are resolved against another directory" if real["ok"] else "%s, current_path_dir=%r afterwards" % (real.get("exc"), real["cpd_after"])))
-        elif known and ctx.is_open(known):
+        if known and ctx.is_open(known):
             ctx.known(known, "a List[Path] argument rejects a line-per-path list file named by a relative spelling with a directory part (e.g. %s), the absolute spelling is accepted" % next((n["ref"] for n in nodes if n["k"] == "list" and not n["yaml"] and not list_stable("/FIX/g%d/%s" % (p["id"], n["dir"]), n["ref"], p)), "?"))
         elif known:
             orc = "parse fails (%s) although every path exists relative to its config file" % " ".join(real.get("msg", "").split())[-200:]
